@@ -1057,7 +1057,7 @@ class InterpAkimaSemi(InterpAlgorithmSemi):
             if compute_local_train:
                 dm1_dv = 2.0 * dm2_dv - dm3_dv
 
-        elif idx == ngrid - 3:
+        if idx == ngrid - 3:
             m5 = 2 * m4 - m3
             if compute_local_train:
                 dm5_dv = 2.0 * dm4_dv - dm3_dv
@@ -1203,7 +1203,7 @@ class InterpAkimaSemi(InterpAlgorithmSemi):
                 if self._compute_d_dvalues:
                     dm1_dv = 2 * dm2_dv - dm3_dv
 
-            elif idx == ngrid - 3:
+            if idx == ngrid - 3:
                 dm5 = 2 * dm4 - dm3
                 if self._compute_d_dvalues:
                     dm5_dv = 2 * dm4_dv - dm3_dv
